@@ -285,3 +285,11 @@ func vc_binlogEvent_TableMap_ensures_nulls(ev binlogEvent, f BinlogFormat, tm *T
 	end := specMetaEnd(tm.Types, specTMmetaPos0(d, idw), n)
 	return tm.CanBeNull.count == n && vspec.Window(tm.CanBeNull.data, d, end, end+(n+7)/8)
 }
+
+// ---- exported views for the contracts of the parent package ----
+
+// SpecValidBitmap: count bits stored in exactly (count+7)/8 bytes.
+func SpecValidBitmap(b *Bitmap) bool { return specValidBitmap(b) }
+
+// SpecBitOf: bit i of the bitmap (least significant bit of each byte first).
+func SpecBitOf(b *Bitmap, i int) bool { return specBit(b.data, i) }
